@@ -246,6 +246,25 @@ def run(ctx):
                 chk.bad(R2, q, 'returned key list', v.msg + f' [flags {consts}]', where=v.node.where, witness=v.witness)
     if not bad2:
         chk.ok(R2, q, f'{len(combos)} flag combinations', detail='exactly one returned key per processed stream, in order', evals=len(combos))
+    # direct path / pack_all_loose: the key staged (and returned) for an object is the digest computed by the call that appended its bytes
+    # (RangeMachine of C03.R1; only its key-source clause is reported here)
+    from .c03 import RangeMachine
+    for q2 in ('container:Container.add_streamed_objects_to_pack', 'container:Container.pack_all_loose'):
+        fn2 = prog.fn(q2)
+        combos2 = [{}] if not q2.endswith('add_streamed_objects_to_pack') else combos
+        bad3 = False
+        for consts in combos2:
+            g = ctx.icfg(q2, consts, write_policy(depth=5), key='wp5')
+            m = RangeMachine(ctx, g, 'C01.R2')
+            viols, st = solve(g, m)
+            chk.crash_points += st['pairs']
+            chk.specialisations += 1
+            for v in viols:
+                if 'key' in v.msg or 'hashkey' in v.msg:
+                    bad3 = True
+                    chk.bad(R2, q2, v.node.text(120), v.msg + f' [flags {consts}]', where=v.node.where, witness=v.witness)
+        if not bad3:
+            chk.ok(R2, q2, f'key source, {len(combos2)} flag combination(s)', detail='the staged key is the digest returned by the writer that appended the bytes (hash type = configuration)', evals=len(combos2))
 
     # ---------------------------------------------------------------- R3
     nsink = 0
